@@ -234,7 +234,9 @@ pub(crate) fn unpack_compounds<'a, const M: usize>(
 ) -> Result<[&'a Arc<XType>; M], String> {
     match t.as_ref() {
         XType::Compound(_, spec, bind) if names.iter().any(|n| *n == spec.name) => 
-            Ok(spec.generic_names.iter().map(|i| bind.get(i).unwrap()).collect::<Vec<_>>().try_into().unwrap()),
+            spec.generic_names.iter().map(|i| bind.get(i)).collect::<Option<Vec<_>>>()
+                .map(|bound| bound.try_into().unwrap())
+                .ok_or_else(|| format!("type {t:?} is not fully specialized")),
         _ => Err(format!("Expected one of {names:?} type, got {t:?}")),
     }
 }
